@@ -14,6 +14,7 @@
   Helper lemmas for Props/C01 (`kmount_then_probe`, `mount_idempotent`).
 -/
 import Lc.Model.Kernel
+import Lc.Lemmas.KernelResolve
 import Lc.Props.C12
 
 namespace Lc.KernelProbe
@@ -527,7 +528,7 @@ theorem kmount_wf {t t' : KTable} {src tgt fstype : Bytes} {flags : Nat} {data :
     · split at h
       · cases h
       · rename_i m hm
-        have hmm := ht m (findContaining_mem _ _ _ hm)
+        have hmm := ht m (KernelResolve.resolve_mem hm)
         have h1 : KWF (bindOne t m src tgt) := by
           unfold bindOne
           exact addMount_wf ht ⟨hmm.dev, hmm.fstype, isB_joinRoot hmm.root (isB_relTail ha.srcB), ha.tgtB,
@@ -662,8 +663,8 @@ theorem kmount_has {t t' : KTable} {src tgt fstype : Bytes} {flags : Nat} {data 
     · cases h
     · rename_i m hm
       cases h
-      rw [hasMount_iff_topmost, hm]
-      simp
+      obtain ⟨_, h1, h2⟩ := KernelResolve.mountedAt_spec hm
+      exact ⟨m, h1, h2⟩
 
 /-- a remount or propagation change leaves the table as it is -/
 theorem kmount_nonstructural {t t' : KTable} {src tgt fstype : Bytes} {flags : Nat} {data : Bytes}
